@@ -1,3 +1,5 @@
 import TxV.Util.AuditCmd
 import TxV.Props.C20
+import TxV.Props.C20b
 #txv_audit TxV.Props.C20
+#txv_audit TxV.Props.C20b
